@@ -88,11 +88,14 @@ type fakeNet struct {
 	refuseNext bool
 	stopNext   string // "delivered": stop after publish and delivery; "undelivered": stop after the DAG write, before the subscriber ran
 	fired      int
+	mu         sync.Mutex // concurrent callers (steered episodes) publish one at a time, as the DAG does
 }
 
 var _ network.Transactions = (*fakeNet)(nil)
 
 func (n *fakeNet) CreateTransaction(ctx context.Context, tpl network.Template) (dag.Transaction, error) {
+	n.mu.Lock()
+	defer n.mu.Unlock()
 	if n.refuseNext {
 		n.refuseNext = false
 		n.fired++
@@ -660,6 +663,10 @@ type site struct {
 	NetStop   string // process stops inside the publish: "delivered" | "undelivered"
 	SweepAt   string // the rollback sweep runs at this boundary while the operation is in flight (its rows are younger than a minute)
 	DBFail    bool   // the clean-up transaction (tx2) fails: its first DELETE returns an error
+	// no fault, other timing of the sweep: the sweep only looks at records older than a minute, so operations that succeeded are followed by further
+	// operations before it comes by. The sweep (ageing + the real Rollback) runs after every n-th operation that took effect, after every operation
+	// that did not, and after the last operation of the sequence; 0 = after every operation
+	SweepEvery int
 }
 
 var sites = []site{
@@ -679,6 +686,8 @@ var sites = []site{
 	{Name: "sweep@before-tx2", SweepAt: "tx2.before"},
 	{Name: "db-failure@tx2", DBFail: true},
 	{Name: "commit-error:nuts+db-failure@tx2", CommitErr: true, DBFail: true},
+	{Name: "none+sweep-after-every-3rd-success", SweepEvery: 3},
+	{Name: "none+sweep-after-the-last-operation", SweepEvery: 1 << 20},
 }
 
 func (s site) class() string {
@@ -1118,6 +1127,9 @@ type pass struct {
 	// did table (the creation of that subject, the migration of that subject) - never from the subject column or from a lookup by name
 	meta  seqMeta
 	owner map[string]string
+	// sites with SweepEvery: operations that took effect since the last sweep, and the last operation of the sequence that is executed in this pass
+	sinceSweep int
+	lastReal   int
 }
 
 func newPass(r *ev.Run, e *env, seqIdx int, seq []op, meta seqMeta, cfg config, s site, stream string) *pass {
@@ -1142,7 +1154,17 @@ func newPass(r *ev.Run, e *env, seqIdx int, seq []op, meta seqMeta, cfg config, 
 var passes sync.Map // goroutine id -> *pass
 
 func hook(name string, args []any) error {
-	v, ok := passes.Load(sched.GoID())
+	id := sched.GoID()
+	if v, ok := actors.Load(id); ok {
+		// a caller of a steered concurrent episode: it waits at the boundary until the episode lets it go on
+		if at := strings.TrimPrefix(name, "didsubject."); parkAt[at] {
+			a := v.(*actor)
+			a.at <- at
+			<-a.resume
+		}
+		return nil
+	}
+	v, ok := passes.Load(id)
 	if !ok {
 		return nil
 	}
@@ -1882,6 +1904,11 @@ func (p *pass) run() {
 	p.firedAll = true
 	var last *snapshot // the snapshot taken after the previous operation: nothing ran since
 	for i, o := range p.seq {
+		if o.Kind != kEnableWeb && o.Kind != kCreateDup && !isGhost(o) {
+			p.lastReal = i // operations refused inside the first transaction are decided in the fault-free pass only
+		}
+	}
+	for i, o := range p.seq {
 		if p.broken {
 			p.count("operations_skipped_after_violation", len(p.seq)-i)
 			p.firedAll = false
@@ -1973,8 +2000,27 @@ func (p *pass) run() {
 				return
 			}
 		}
-		p.sweep(o)
+		deferred := false
+		if p.s.SweepEvery > 0 && err == nil && stopped == nil && i < p.lastReal {
+			// the operation succeeded and the sweep does not come by yet: the next operation follows first. "At the latest after the rollback sweep":
+			// nothing is demanded of the change log until then, everything else is demanded as always
+			p.sinceSweep++
+			deferred = p.sinceSweep < p.s.SweepEvery
+		}
+		if deferred {
+			p.count("operations_followed_by_the_next_one_before_the_sweep", 1)
+		} else {
+			p.sweep(o)
+			if p.sinceSweep > 1 {
+				p.count("sweeps_after_several_operations", 1)
+			}
+			p.sinceSweep = 0
+		}
 		post := p.e.snap(o.Subject)
+		if deferred && post.ChangeLog > 0 {
+			p.count("change_records_waiting_for_the_sweep_after_an_operation_that_succeeded", int(post.ChangeLog))
+		}
+		p.pendingOK = deferred
 
 		tookEffect := err == nil && stopped == nil
 		if onDeactivated(o) && natural && publishedNow {
@@ -2046,7 +2092,14 @@ func (p *pass) run() {
 		if tookEffect {
 			outcome = "took-effect"
 		}
-		ok := p.compare(o, pl, "after "+class+" and sweep", class, tookEffect, pre, post)
+		phase := "after " + class + " and sweep"
+		if deferred {
+			phase = "after " + class + ", before the sweep"
+		} else if p.s.SweepEvery > 0 {
+			phase = "after " + class + " and a sweep that was preceded by other successful operations"
+		}
+		ok := p.compare(o, pl, phase, class, tookEffect, pre, post)
+		p.pendingOK = false
 		kind := o.Kind
 		switch {
 		case isGhost(o):
@@ -2253,6 +2306,304 @@ func sameSubjectBeforeSweep(t *testing.T, r *ev.Run) {
 	}
 }
 
+// ---- concurrent creations -----------------------------------------------------------------------------------------------------
+//
+// "A subject name maps to at most one set of DIDs" over histories in which creations overlap: 2 or 3 callers create a subject at the same time, under one
+// name or under the names of a look-alike pair. Every caller waits at the boundaries of transactionHelper that lie outside its database transactions
+// (before the first transaction, after it, before the clean-up transaction: a waiting caller holds no connection and no lock, so every other caller can
+// run on); the episode lets one caller at a time go on to its next boundary, in an order given by a script. All steps are logical events (a caller
+// reports the boundary it reached or that its call returned); the only clock is a watchdog (inconclusive).
+// Reference, from the statement alone: of the creations of ONE name at most one is acknowledged; when one is, the name maps to exactly one DID per enabled
+// method, the ones that caller got; when none is, the name maps to nothing. Creations of different names do not see each other.
+
+var parkAt = map[string]bool{"tx1.before": true, "tx1.done": true, "tx2.before": true}
+
+type actor struct {
+	idx      int
+	name     string
+	at       chan string // the boundary the caller waits at; "" = its call returned
+	resume   chan struct{}
+	err      error
+	dids     []string
+	panicked any
+	stack    string
+}
+
+var actors sync.Map // goroutine id -> *actor
+
+const concurrentWatchdog = 3 * time.Minute
+
+func await(a *actor) (string, bool) {
+	select {
+	case at := <-a.at:
+		return at, true
+	case <-time.After(concurrentWatchdog):
+		return "", false
+	}
+}
+
+// overlap runs one episode: caller i creates names[i]; script is the order in which callers are let go (entries of callers that returned are skipped,
+// when it is used up the lowest waiting caller goes). Returns the interleaving produced; ok=false when the watchdog expired.
+func overlap(mgr *didsubject.SqlManager, names []string, script []int) (as []*actor, trace string, ok bool) {
+	where := make([]string, len(names))
+	var steps []string
+	for i, name := range names {
+		a := &actor{idx: i, name: name, at: make(chan string), resume: make(chan struct{})}
+		as = append(as, a)
+		go func() {
+			id := sched.GoID()
+			actors.Store(id, a)
+			func() {
+				defer func() {
+					if v := recover(); v != nil {
+						buf := make([]byte, 4096)
+						a.panicked, a.stack = v, string(buf[:runtime.Stack(buf, false)])
+					}
+				}()
+				docs, _, err := mgr.Create(ctx(), didsubject.DefaultCreationOptions().With(didsubject.SubjectCreationOption{Subject: a.name}))
+				a.err = err
+				for _, d := range docs {
+					a.dids = append(a.dids, d.ID.String())
+				}
+				sort.Strings(a.dids)
+			}()
+			actors.Delete(id)
+			a.at <- ""
+		}()
+		// callers enter one after the other: nothing is shared before the first boundary
+		if where[i], ok = await(a); !ok {
+			return as, strings.Join(steps, " "), false
+		}
+	}
+	for {
+		next := -1
+		for len(script) > 0 && next < 0 {
+			if where[script[0]] != "" {
+				next = script[0]
+			}
+			script = script[1:]
+		}
+		for i := 0; i < len(where) && next < 0; i++ {
+			if where[i] != "" {
+				next = i
+			}
+		}
+		if next < 0 {
+			return as, strings.Join(steps, " "), true
+		}
+		steps = append(steps, fmt.Sprintf("%c:%s", 'a'+rune(next), where[next]))
+		as[next].resume <- struct{}{}
+		if where[next], ok = await(as[next]); !ok {
+			return as, strings.Join(steps, " "), false
+		}
+	}
+}
+
+// interleavings: every order in which n callers with k steps each can be let go (sequences over 0..n-1 holding every caller k times).
+func interleavings(n, k int) [][]int {
+	var out [][]int
+	left := make([]int, n)
+	for i := range left {
+		left[i] = k
+	}
+	var rec func(cur []int)
+	rec = func(cur []int) {
+		if len(cur) == n*k {
+			out = append(out, append([]int{}, cur...))
+			return
+		}
+		for i := 0; i < n; i++ {
+			if left[i] > 0 {
+				left[i]--
+				rec(append(cur, i))
+				left[i]++
+			}
+		}
+	}
+	rec(nil)
+	return out
+}
+
+// concurrentCreations runs the episodes of every node configuration on a goroutine of their own, next to the passes (callers are told apart by their
+// goroutine); the returned function waits for them.
+func concurrentCreations(t *testing.T, r *ev.Run) (wait func()) {
+	var wg sync.WaitGroup
+	for _, cfgName := range []string{"both", "nuts", "web"} {
+		wg.Add(1)
+		go func() {
+			defer wg.Done()
+			defer func() {
+				if v := recover(); v != nil {
+					buf := make([]byte, 8192)
+					buf = buf[:runtime.Stack(buf, false)]
+					r.Fatalf("harness failure in the concurrent creations (%s): %v\n%s", cfgName, v, buf)
+				}
+			}()
+			concurrentCreationsUnder(t, r, configs[cfgName], r.Rand("concurrent-creations-"+cfgName))
+		}()
+	}
+	return wg.Wait
+}
+
+func concurrentCreationsUnder(t *testing.T, r *ev.Run, cfg config, rnd *rand.Rand) {
+	two := interleavings(2, len(parkAt)) // 20
+	episode := 0
+	{
+		e := newEnv(t)
+		mgr := e.mgrs[cfg.Start]
+		want := methodsOf(cfg.Start)
+		used := map[string]bool{}
+		type plan struct {
+			kind    string // same-name | look-alike-names
+			callers int
+			script  []int
+		}
+		var plans []plan
+		for _, sc := range two {
+			plans = append(plans, plan{"same-name", 2, sc})
+		}
+		for i := r.Pick(8, 60); i > 0; i-- {
+			sc := []int{0, 0, 0, 1, 1, 1, 2, 2, 2}
+			rnd.Shuffle(len(sc), func(i, j int) { sc[i], sc[j] = sc[j], sc[i] })
+			plans = append(plans, plan{"same-name", 3, sc})
+		}
+		for i := r.Pick(6, 20); i > 0; i-- {
+			plans = append(plans, plan{"look-alike-names", 2, two[rnd.Intn(len(two))]})
+		}
+		for _, pl := range plans {
+			episode++
+			// names of a family (the pivot first), new ones for every episode
+			fam := families[episode%len(families)]
+			pool := fam.names(5000 + episode)
+			if used[pool[0]] || used[pool[1]] {
+				fam = families[0]
+				pool = fam.names(5000 + episode)
+			}
+			names := make([]string, pl.callers)
+			for i := range names {
+				names[i] = pool[0]
+				if pl.kind == "look-alike-names" {
+					names[i] = pool[i]
+				}
+				used[names[i]] = true
+			}
+			ledgerBefore := len(e.net.ledger)
+			as, trace, ok := overlap(mgr, names, pl.script)
+			if !ok {
+				r.Inconclusive("concurrent creations: a caller neither reached a boundary nor returned before the watchdog expired (" + trace + ")")
+				return // the environment stays as it is: callers may still be inside
+			}
+			e.sweep(mgr)
+			w := map[string]any{"configuration": cfg.Name, "names": names, "interleaving": trace, "name_family": fam.Name, "recent_error_logs": logs.tail(5)}
+			var callers []map[string]any
+			broken := false
+			for _, a := range as {
+				callers = append(callers, map[string]any{"caller": string(rune('a' + a.idx)), "name": a.name, "error": fmt.Sprint(a.err), "dids": a.dids})
+				if a.panicked != nil {
+					r.Violation("C13/panic/"+kCreate, fmt.Sprintf("panic in a concurrent creation: %v", a.panicked), map[string]any{"episode": w, "stack": a.stack})
+					broken = true
+				}
+			}
+			w["callers"] = callers
+			views := map[string]subjSnap{}
+			w["views"] = views
+			violation := func(key, what string) {
+				r.Violation(key, fmt.Sprintf("%s [%d concurrent creations, %s, %s, interleaving %s]", what, pl.callers, pl.kind, cfg.Name, trace), w)
+				broken = true
+			}
+			distinct := []string{}
+			for _, n := range names {
+				if !contains(distinct, n) {
+					distinct = append(distinct, n)
+				}
+			}
+			outcome := ""
+			for _, name := range distinct {
+				var acked []*actor
+				refusedAsExisting := 0
+				for _, a := range as {
+					if a.name == name && a.err == nil && a.panicked == nil {
+						acked = append(acked, a)
+					}
+					if a.name == name && errors.Is(a.err, didsubject.ErrSubjectAlreadyExists) {
+						refusedAsExisting++
+					}
+				}
+				ss := e.snapSubject(name)
+				views[name] = ss
+				var listed []string
+				perMethod := map[string]int{}
+				for _, d := range ss.DIDs {
+					listed = append(listed, d.DID)
+					perMethod[d.Method]++
+				}
+				sort.Strings(listed)
+				outcome += fmt.Sprintf("%d-acknowledged/", len(acked))
+				r.Count("concurrent_creations_refused_as_existing", refusedAsExisting)
+				switch {
+				case len(acked) > 1:
+					violation("C13/subject/concurrent-creations-acknowledged-together", fmt.Sprintf("%d overlapping creations of the subject %q were acknowledged; the name maps to %v", len(acked), name, listed))
+				case len(acked) == 0 && pl.kind == "look-alike-names":
+					violation("C13/further-operation-failed/"+kCreate, fmt.Sprintf("the creation of %q failed although no subject has that name (it overlapped with the creation of %q)", name, without(distinct, name)))
+				case len(acked) == 0:
+					r.Unspecified("overlapping-creations-of-one-name-all-refused")
+					if ss.Listed || ss.Exists {
+						violation("C13/not-rolled-back/"+kCreate+"/after-refusal", fmt.Sprintf("no creation of %q was acknowledged but the name maps to %v", name, listed))
+					}
+				}
+				if len(acked) >= 1 {
+					full := ss.Listed && len(ss.DIDs) == len(want)
+					for _, m := range want {
+						full = full && perMethod[m] == 1
+					}
+					if !full {
+						violation("C13/list-dids/not-one-full-set", fmt.Sprintf("subject %q lists %v: not exactly one DID per method of %v", name, listed, want))
+					} else if !reflect.DeepEqual(listed, acked[0].dids) {
+						violation("C13/subject/second-did-set", fmt.Sprintf("the creation of %q returned %v, the name maps to %v", name, acked[0].dids, listed))
+					}
+					for _, d := range ss.DIDs {
+						switch {
+						case d.ResolveErr != "":
+							violation("C13/list-dids/unresolvable", fmt.Sprintf("subject %q lists %s, which does not resolve: %s", name, d.DID, d.ResolveErr))
+						case !reflect.DeepEqual(d.Versions, []int{0}) || len(d.VMs) != 1:
+							violation("C13/not-one-version/"+kCreate+"/after-no-fault", fmt.Sprintf("%s has versions %v and %d verification methods after its creation", d.DID, d.Versions, len(d.VMs)))
+						case d.Method == "nuts" && (d.NetErr != "" || !reflect.DeepEqual(d.VMs, d.NetVMs)):
+							violation("C13/sql-network-diverge/"+kCreate, fmt.Sprintf("the database and the network side show different documents for %s (network: %v %s)", d.DID, d.NetVMs, d.NetErr))
+						}
+					}
+				}
+			}
+			// the DIDs of different names are different DIDs
+			if len(distinct) == 2 && !broken {
+				for _, x := range views[distinct[0]].DIDs {
+					for _, y := range views[distinct[1]].DIDs {
+						if x.DID == y.DID {
+							violation("C13/subject/lists-dids-of-another-subject", fmt.Sprintf("%q and %q both map to %s", distinct[0], distinct[1], x.DID))
+						}
+					}
+				}
+			}
+			var pending int64
+			e.db.Raw("SELECT count(*) FROM did_change_log").Scan(&pending)
+			if pending != 0 {
+				violation("C13/change-log-remains/"+kCreate, fmt.Sprintf("%d change record(s) remain after the rollback sweep", pending))
+			}
+			r.Case(strings.Join([]string{"concurrent-create", pl.kind, fmt.Sprint(pl.callers), cfg.Start, outcome, trace}, "/"), strings.Count(trace, ":tx1.before") >= 2)
+			r.Count("concurrent_creation_episodes", 1)
+			r.Count("concurrent_creation_calls", pl.callers)
+			r.Count("documents_published_by_concurrent_creations", len(e.net.ledger)-ledgerBefore)
+			r.Distinct("interleavings_of_concurrent_creations", fmt.Sprintf("%d/%s", pl.callers, trace))
+			if episode <= 2 {
+				r.Sample(w)
+			}
+			if broken {
+				break // the environment is no longer what the next episode assumes
+			}
+		}
+		e.close()
+	}
+}
+
 // ---- error-log capture (the sweep reports failures only in the log) -----------------------------------------------------
 
 type logCapture struct {
@@ -2304,12 +2655,20 @@ func TestCheck(t *testing.T) {
 		"numerically equal, > 255 characters differing in the last), in random order, the second subject is created by the third operation at the latest; besides them a sequence holds up to two " +
 		"operations addressed to a look-alike name under which no subject exists (other case, one character replaced by _ % . * ?, %, prefix, padding, empty ...: must not change anything). " +
 		"With every snapshot the manager is asked about every name of the sequence (ListDIDs, Exists, List) and about look-alike names in rotation (also FindServices): a name maps only to the DIDs " +
-		"whose rows appeared in the did table while that very name was created/migrated (reference kept by the harness), never to a DID of another name, the views agree, a name without subject maps to nothing.")
+		"whose rows appeared in the did table while that very name was created/migrated (reference kept by the harness), never to a DID of another name, the views agree, a name without subject maps to nothing. " +
+		"Timing of the sweep: besides the passes in which the sweep follows every operation, every sequence runs without faults with the sweep only after every 3rd successful operation and " +
+		"only after its last operation (the sweep looks at records older than a minute: successful operations follow each other before it comes by); nothing is demanded of the change log " +
+		"before the sweep, everything else (versions, DID sets, network agreement, other subjects untouched) at every step. " +
+		"Overlapping creations: under [web nuts], [nuts] and [web], 2 callers create ONE name at the same time in every order of their steps between the boundaries of transactionHelper that lie " +
+		"outside a database transaction (before the first transaction, after it, before the clean-up; all 20 interleavings), 3 callers in seeded random orders, and 2 callers create the two names " +
+		"of a look-alike pair; steering by logical events only. Reference: at most one creation of a name is acknowledged, then the name maps to exactly that caller's one DID per method; " +
+		"none acknowledged: the name maps to nothing; different names: both succeed with disjoint sets.")
 	r.Require(400, 60)
 	r.Assume("a process stop is a panic that unwinds out of the manager: SqlManager and the method managers keep no state outside SQL, key store and didstore, which all survive")
 	r.Assume("the did:nuts network is a scripted stand-in that signs real DAG transactions and feeds the real ambassador/didstore synchronously; only the network method can fail to commit")
 	r.Assume("SQLite; 'older than a minute' is produced by subtracting an hour from updated_at of the rows in the change log")
 	r.Assume("a failing clean-up transaction is its first DELETE statement returning an error (gorm callback on the node's database handle)")
+	r.Assume("overlapping creations wait only at boundaries where the caller holds no database connection (SQLite: one pooled connection); interleavings inside a database transaction are serialised by that connection and not steered")
 	r.Assume("subject names are byte strings: two names that differ in any byte (letter case included) are two names; this is how the node on SQLite compares them")
 
 	logrus.SetLevel(logrus.WarnLevel)
@@ -2373,6 +2732,7 @@ func TestCheck(t *testing.T) {
 		}
 		list = kept
 	}
+	waitConcurrent := concurrentCreations(t, r)
 	jobs := make(chan int)
 	results := make([]*pass, len(list))
 	var wg sync.WaitGroup
@@ -2404,6 +2764,7 @@ func TestCheck(t *testing.T) {
 	close(jobs)
 	wg.Wait()
 
+	waitConcurrent()
 	sameSubjectBeforeSweep(t, r)
 
 	exhaustive := true
@@ -2435,6 +2796,9 @@ func TestCheck(t *testing.T) {
 	r.Extra("faults_injected_by_site_and_operation", byFault)
 	missing := []string{}
 	for _, s := range sites[1:] {
+		if s.SweepEvery > 0 {
+			continue // no fault to inject
+		}
 		for _, k := range kinds {
 			if byFault[s.Name+"/"+k] == 0 && !(refusedByMethod(k) && (s.Refuse || s.NetStop != "")) {
 				missing = append(missing, s.Name+"/"+k)
